@@ -126,6 +126,16 @@ def run(ctx):
         bwd = "[" + "; ".join(str(x) for x in reversed(d["order"])) + "]%nat"
         okc, badc, _ = coq.coq_eval_bool_cases(ctx, "gram_canary", "From PV Require Import Model.GrammarCases Proofs.GrammarPG.\nOpen Scope nat_scope.", [it.replace(fwd, bwd, 1)], shard=1, workers=1)
         ctx.obligation("corr_grammar_canary_reversed_order_rejected", fwd in it and okc and badc == [0])
+    # ---- the end-to-end target: gam_fscrp of the Coq theorem against the real log_p_one / log_p on every state
+    eh, eitems, edesc = C01corr.e2e_items(ctx)
+    ok, bad, detail = coq.coq_eval_bool_cases(ctx, "e2e", eh, eitems, shard=8, workers=14)
+    ctx.extra["coq_e2e_target_cases"] = len(eitems)
+    if not ok:
+        ctx.broken_tie("C01 end-to-end target correspondence file did not evaluate", detail)
+    else:
+        ctx.obligation("corr_e2e_target_is_log_p_one_%d_states" % len(eitems), not bad)
+        if bad:
+            ctx.broken[-1]["detail"] = {"failing": len(bad), "first": edesc[bad[0]]}
     ctx.assumptions += [
         "the enumerating generator visits every outcome of each numpy call with numpy's probability",
         "float round-off of the exact matrices is below 1e-12 on the small-rational inputs used (observed 1e-16)",
